@@ -40,24 +40,15 @@ Theorem C07_na_wellformed : forall c sm si dm di tm ti junk,
 Proof. exact na_wf. Qed.
 Print Assumptions C07_na_wellformed.
 
-(* ICMP6SendNeighbourSolicitation: refuted (finding ns-option-type-2: the link-layer option has type 2) ... *)
-Theorem C07_ns_wellformed_refuted :
-  exists c sm si dm di tg junk fr,
-    mac_ok (host_mac c) /\ mac_ok dm /\ ip6_ok si /\ ip6_ok di /\ ip6_ok tg /\ length junk = EthMaxSize /\
-    send_ns c (sm, si) (dm, di) tg junk = Ok [fr] /\
-    wf_ns (host_mac c) dm si di tg fr = false /\
-    known_ns_opt_type (host_mac c) dm si di tg fr = true.
-Proof. exact ns_refuted. Qed.
-Print Assumptions C07_ns_wellformed_refuted.
-
-(* ... and proved for everything but the option type: wf_ns_gen 2 is wf_ns with the expected option type 2 *)
-Theorem C07_ns_wellformed_partial : forall c sm si dm di tg junk,
+(* ICMP6SendNeighbourSolicitation (after fix 6b9f9d7: SLLA option type 1), incl. hop limit 255 towards
+   link-local destinations *)
+Theorem C07_ns_wellformed : forall c sm si dm di tg junk,
   mac_ok (host_mac c) -> mac_ok dm -> ip6_ok si -> ip6_ok di -> ip6_ok tg ->
   length junk = EthMaxSize ->
   exists fr, send_ns c (sm, si) (dm, di) tg junk = Ok [fr] /\
-    wf_ns_gen 2 (host_mac c) dm si di tg fr = true.
-Proof. exact ns_partial. Qed.
-Print Assumptions C07_ns_wellformed_partial.
+    wf_ns (host_mac c) dm si di tg fr = true.
+Proof. exact ns_wf. Qed.
+Print Assumptions C07_ns_wellformed.
 
 (* Session.arpRequest (purge probe): refuted (finding arpreq-hlen-plen-in-ether-header) ... *)
 Theorem C07_arp_request_wellformed_refuted :
@@ -95,3 +86,185 @@ Example C07_arp_request_outside_known_inhabited :
     known_arpreq_hdr (host_mac c) dst 1 sm si tm ti fr = false.
 Proof. exact arp_request_outside_known_inhabited. Qed.
 Print Assumptions C07_arp_request_outside_known_inhabited.
+
+(* ================================================================ *)
+(* arp_spoofer (handlers/arp_spoofer/arp.go): RequestRaw / reply for every operation, destination, sender,
+   target and buffer content; Request, RequestTo, Probe, AnnounceTo are instances *)
+From PV Require Import Model.SendNdp Model.SendUdp Spec.SendRefUdp Proofs.SendNdp Proofs.SendUdp.
+
+Theorem C07_arp_spoofer_wellformed : forall c op dst sm si tm ti junk,
+  mac_ok (host_mac c) -> mac_ok dst -> mac_ok sm -> ip4_ok si -> mac_ok tm -> ip4_ok ti -> op < 65536 ->
+  (42 <= length junk)%nat ->
+  exists fr, send_arp c op dst (sm, si) (tm, ti) junk = Ok [fr] /\
+    wf_arp (host_mac c) dst op sm si tm ti fr = true.
+Proof. exact arp_spoofer_wf. Qed.
+Print Assumptions C07_arp_spoofer_wellformed.
+
+Theorem C07_arp_request_to_wellformed : forall c dst ip junk,
+  mac_ok (host_mac c) -> ip4_ok (host_ip4 c) -> mac_ok dst -> ip4_ok ip -> (42 <= length junk)%nat ->
+  exists fr, arp_request_to c dst ip junk = Ok [fr] /\
+    wf_arp (host_mac c) dst 1 (host_mac c) (host_ip4 c) eth_bcast ip fr = true.
+Proof. exact arp_request_to_wf. Qed.
+Print Assumptions C07_arp_request_to_wellformed.
+
+Theorem C07_arp_request_to_refuses_non_ip4 : forall c dst ip junk,
+  is4 ip = false -> arp_request_to c dst ip junk = Ok [].
+Proof. exact arp_request_to_refuses. Qed.
+Print Assumptions C07_arp_request_to_refuses_non_ip4.
+
+Theorem C07_arp_probe_wellformed : forall c ip junk,
+  mac_ok (host_mac c) -> ip4_ok ip -> (42 <= length junk)%nat ->
+  exists fr, arp_probe c ip junk = Ok [fr] /\
+    wf_arp (host_mac c) eth_bcast 1 (host_mac c) [0;0;0;0] eth_zero ip fr = true.
+Proof. exact arp_probe_wf. Qed.
+Print Assumptions C07_arp_probe_wellformed.
+
+Theorem C07_arp_announce_wellformed : forall c dst ip junk,
+  mac_ok (host_mac c) -> mac_ok dst -> ip4_ok ip -> (42 <= length junk)%nat ->
+  exists fr, arp_announce_to c dst ip junk = Ok [fr] /\
+    wf_arp (host_mac c) dst 1 (host_mac c) ip eth_bcast ip fr = true.
+Proof. exact arp_announce_wf. Qed.
+Print Assumptions C07_arp_announce_wellformed.
+
+(* ICMP6SendRouterSolicitation: refuted (finding rs-without-icmp6-header-to-ff02-1) ... *)
+Theorem C07_rs_wellformed_refuted :
+  exists c junk fr, mac_ok (host_mac c) /\ ip6_ok (host_lla c) /\ length junk = EthMaxSize /\
+    send_rs c junk = Ok [fr] /\ wf_rs (host_mac c) (host_lla c) fr = false.
+Proof. exact rs_refuted. Qed.
+Print Assumptions C07_rs_wellformed_refuted.
+
+(* ... every RS frame lies in exactly that class (ICMPv6 type 0 to ff02::1 with the SLLA option as body) *)
+Theorem C07_rs_wellformed_partial : forall c junk,
+  mac_ok (host_mac c) -> ip6_ok (host_lla c) -> length junk = EthMaxSize ->
+  exists fr, send_rs c junk = Ok [fr] /\
+    known_rs_noheader (a_ip ip6_all_nodes_addr) (host_mac c) (host_lla c) fr = true.
+Proof. exact rs_partial. Qed.
+Print Assumptions C07_rs_wellformed_partial.
+
+(* purge, IPv6 probes *)
+Theorem C07_purge_ns_wellformed : forall c tm ti id junk,
+  mac_ok (host_mac c) -> ip6_ok (host_lla c) -> ip6_ok ti -> ll_unicast ti = true ->
+  length junk = EthMaxSize ->
+  exists fr, send_purge_ip6 c (tm, ti) id junk = Ok [fr] /\
+    wf_ns (host_mac c) (mac_of_mcast6 (a_ip (solicited_node ti))) (host_lla c) (a_ip (solicited_node ti)) ti fr = true /\
+    mcast6_mac_ok (mac_of_mcast6 (a_ip (solicited_node ti))) (a_ip (solicited_node ti)) = true.
+Proof. exact purge_ns_wf. Qed.
+Print Assumptions C07_purge_ns_wellformed.
+
+Theorem C07_purge_echo6_wellformed : forall c tm ti id junk,
+  mac_ok (host_mac c) -> ip6_ok (host_lla c) -> mac_ok tm -> ip6_ok ti -> ll_unicast ti = false -> id < 65536 ->
+  length junk = EthMaxSize ->
+  exists fr, send_purge_ip6 c (tm, ti) id junk = Ok [fr] /\
+    wf_echo6 (host_mac c) tm (host_lla c) ti id 0 fr = true.
+Proof. exact purge_echo6_wf. Qed.
+Print Assumptions C07_purge_echo6_wellformed.
+
+Theorem C07_purge_ip6_silent_without_lla : forall c host id junk,
+  is6 (host_lla c) = false -> send_purge_ip6 c host id junk = Ok [].
+Proof. exact purge_ip6_silent. Qed.
+Print Assumptions C07_purge_ip6_silent_without_lla.
+
+(* ================================================================ *)
+(* UDP paths: Ethernet/IPv4/UDP encapsulation of ANY payload that fits, any buffer content *)
+Theorem C07_udp4_encapsulation : forall smac dmac ttl sip dip sp dp p junk,
+  mac_ok smac -> mac_ok dmac -> ip4_ok sip -> ip4_ok dip -> sp < 65536 -> dp < 65536 ->
+  0 < ttl < 256 -> bytes_ok p -> (length p <= 1480)%nat -> length junk = EthMaxSize ->
+  exists fr, udp4_send smac dmac ttl sip dip sp dp p junk = Ok [fr] /\
+    wf_udp4 smac dmac sip dip sp dp (beq p) false fr = true.
+Proof. exact udp4_wf. Qed.
+Print Assumptions C07_udp4_encapsulation.
+
+Theorem C07_udp4_refuses_oversize : forall smac dmac ttl sip dip sp dp p junk,
+  (1480 < length p)%nat -> udp4_send smac dmac ttl sip dip sp dp p junk = Ok [].
+Proof. exact udp4_too_big. Qed.
+Print Assumptions C07_udp4_refuses_oversize.
+
+(* DHCP server replies (offer/ack/nak) leave through sendDHCP4Packet: host MAC/IP:67 -> client:68 *)
+Theorem C07_dhcp_reply_wellformed : forall c dm di p junk,
+  mac_ok (host_mac c) -> ip4_ok (host_ip4 c) -> mac_ok dm -> ip4_ok di -> dst4_mac_ok dm di = true ->
+  bytes_ok p -> (length p <= 1480)%nat -> length junk = EthMaxSize ->
+  exists fr, send_dhcp4_reply c (dm, di) p junk = Ok [fr] /\
+    wf_udp4 (host_mac c) dm (host_ip4 c) di 67 68 (beq p) true fr = true.
+Proof. exact dhcp_reply_wf. Qed.
+Print Assumptions C07_dhcp_reply_wellformed.
+
+(* decline / release: the message EncodeDHCP4 built is carried unchanged host:68 -> router:67
+   (partial: well-formedness of the DHCP message itself is established by the correspondence only) *)
+Theorem C07_decline_release_partial : forall c ch ci xid opts junk1 junk2 d,
+  mac_ok (host_mac c) -> ip4_ok (host_ip4 c) -> mac_ok (router_mac c) -> ip4_ok (router_ip4 c) ->
+  enc_dhcp4 junk1 1 ch ci ipv4zero (Some xid) false opts = Some d ->
+  bytes_ok d -> (length d <= 1480)%nat -> length junk2 = EthMaxSize ->
+  exists fr, send_decline_release c ch ci xid opts junk1 junk2 = Ok [fr] /\
+    wf_udp4 (host_mac c) (router_mac c) (host_ip4 c) (router_ip4 c) 68 67 (beq d) false fr = true.
+Proof. exact decline_release_carried. Qed.
+Print Assumptions C07_decline_release_partial.
+
+(* NBNS: Ethernet source is the caller's MAC (finding nbns-ether-src-is-caller-mac) *)
+Theorem C07_nbns_wellformed_refuted :
+  exists c sm si dm di sq name junk fr,
+    mac_ok (host_mac c) /\ mac_ok sm /\ ip4_ok si /\ mac_ok dm /\ ip4_ok di /\ length junk = EthMaxSize /\
+    send_nbns_query (sm, si) (dm, di) sq name junk = Ok [fr] /\
+    wf_udp4 (host_mac c) dm si di 137 137 (wf_dns_query (Some sq) [nb_label name] 32 1) false fr = false /\
+    wf_udp4 sm dm si di 137 137 (wf_dns_query (Some sq) [nb_label name] 32 1) false fr = true.
+Proof. exact nbns_refuted. Qed.
+Print Assumptions C07_nbns_wellformed_refuted.
+
+Theorem C07_nbns_wellformed_partial : forall c si dm di p junk,
+  mac_ok (host_mac c) -> ip4_ok si -> mac_ok dm -> ip4_ok di ->
+  bytes_ok p -> (length p <= 1480)%nat -> length junk = EthMaxSize ->
+  exists fr, send_nbns (host_mac c, si) (dm, di) p junk = Ok [fr] /\
+    wf_udp4 (host_mac c) dm si di 137 137 (beq p) false fr = true.
+Proof. exact nbns_outside_known. Qed.
+Print Assumptions C07_nbns_wellformed_partial.
+
+(* SSDP *)
+Theorem C07_ssdp_wellformed_refuted :
+  exists c junk fr, mac_ok (host_mac c) /\ ip4_ok (host_ip4 c) /\ length junk = EthMaxSize /\
+    send_ssdp_search c junk = Ok [fr] /\
+    wf_udp4 (host_mac c) (mac_of_mcast4 [239;255;255;250]) (host_ip4 c) [239;255;255;250] 1900 1900 wf_msearch true fr = false.
+Proof. exact ssdp_refuted. Qed.
+Print Assumptions C07_ssdp_wellformed_refuted.
+
+Theorem C07_ssdp_wellformed_partial : forall c junk,
+  mac_ok (host_mac c) -> ip4_ok (host_ip4 c) -> length junk = EthMaxSize ->
+  exists fr, send_ssdp_search c junk = Ok [fr] /\
+    wf_udp4 (host_mac c) eth_bcast (host_ip4 c) [239;255;255;250] 1900 1900 (beq ascii_msearch) false fr = true.
+Proof. exact ssdp_partial. Qed.
+Print Assumptions C07_ssdp_wellformed_partial.
+
+(* mDNS / LLMNR *)
+Theorem C07_mdns_query_wellformed_refuted :
+  exists c name fr, mac_ok (host_mac c) /\ ip4_ok (host_ip4 c) /\
+    send_mdns_query c name = Ok [fr] /\
+    wf_udp4 (host_mac c) (mac_of_mcast4 [224;0;0;251]) (host_ip4 c) [224;0;0;251] 5353 5353
+      (wf_dns_query None (split_dots name []) 255 255) true fr = false /\
+    wf_udp4 (host_mac c) eth_bcast (host_ip4 c) [224;0;0;251] 5353 5353
+      (wf_dns_query None (split_dots name []) 255 255) false fr = true.
+Proof. exact mdns_query_refuted. Qed.
+Print Assumptions C07_mdns_query_wellformed_refuted.
+
+Theorem C07_mdns_query_wellformed_partial : forall c name,
+  mac_ok (host_mac c) -> ip4_ok (host_ip4 c) -> bytes_ok (dns_name name) -> (length (dns_name name) <= 1400)%nat ->
+  exists fr, send_mdns_query c name = Ok [fr] /\
+    wf_udp4 (host_mac c) eth_bcast (host_ip4 c) [224;0;0;251] 5353 5353
+      (beq (dns_query 0 0 (dns_name name) 255 255)) false fr = true.
+Proof. exact mdns_query_partial. Qed.
+Print Assumptions C07_mdns_query_wellformed_partial.
+
+Theorem C07_llmnr_query_wellformed_refuted :
+  exists c name fr, mac_ok (host_mac c) /\ ip4_ok (host_ip4 c) /\
+    send_llmnr_query c name = Ok [fr] /\
+    wf_udp4 (host_mac c) (mac_of_mcast4 [224;0;0;252]) (host_ip4 c) [224;0;0;252] 5355 5355
+      (wf_dns_query None (split_dots name []) 255 255) true fr = false /\
+    wf_udp4 (host_mac c) eth_bcast (host_ip4 c) [224;0;0;251] 5355 5355
+      (wf_dns_query None (split_dots name []) 255 255) false fr = true.
+Proof. exact llmnr_query_refuted. Qed.
+Print Assumptions C07_llmnr_query_wellformed_refuted.
+
+Theorem C07_mdns_ip4_branch_partial : forall c buf sm si dm di port,
+  mac_ok (host_mac c) -> ip4_ok si -> mac_ok dm -> ip4_ok di -> port < 65536 ->
+  bytes_ok buf -> (length buf <= 1480)%nat ->
+  exists fr, send_mdns c buf (sm, si) (dm, di) port = Ok [fr] /\
+    wf_udp4 (host_mac c) dm si di port port (beq buf) false fr = true.
+Proof. exact mdns4_partial. Qed.
+Print Assumptions C07_mdns_ip4_branch_partial.
